@@ -113,11 +113,16 @@ CHECKS = {
                      "the maximum work per byte seen by the coverage-guided fuzzer (quantifier text) is not measured: fuzz_stream is not built against the cost variant (stated in DESIGN.md)"],
     ),
     "C09": dict(
-        bins=["fuzz_stream", "sreplay"], replay_bin="sreplay", replay_args=["--monitor", "C09"], campaigns=_fuzz("C09", ""), level="exploration",
+        bins=["fuzz_stream", "sreplay", "c04", "c16"], replay_bin="sreplay", replay_args=["--monitor", "C09"],
+        replay_route=[("c04 ", "c04", ["--mode", "c09"]), ("c16 ", "c16", ["--mode", "c09"])],
+        campaigns=lambda tier, seed: [dict(name="feeder_pipelines", bin="c04", shards=16, timeout=3000, args=["--mode", "c09"]),
+                                      dict(name="feeder_connect", bin="c16", shards=16, timeout=3000, args=["--mode", "c09"])] + _fuzz("C09", "")(tier, seed), level="exploration",
         prepare="seeds",
         rule=("after every data call: documented return code, DATA => consumed == len, DATA_OTHER => consumed < len, ERROR/STOP sticky with no "
               "callbacks, byte counters == bytes of accepted calls; non-trivial = history with >=2 data calls where some call returned "
-              "DATA_OTHER/ERROR/STOP/TUNNEL/CLOSED"),
+              "DATA_OTHER/ERROR/STOP/TUNNEL/CLOSED. Feeder campaigns (the C04 pipeline generator and the C16 CONNECT generator run with --mode c09): a caller that "
+              "re-offers exactly the unconsumed remainder after DATA_OTHER gets every tagged request/response reported intact, once, with its partner (resume-point exactness), "
+              "never ping-pongs without progress, and the API-contract monitor holds on these histories too"),
         assumptions=STREAM_ASSUME + ["a call rejected at entry (it returns ERROR/STOP) may or may not be counted by the byte counters",
                                      "the caller follows the DATA_OTHER hand-over protocol and offers no data after closing a direction"],
     ),
